@@ -363,6 +363,25 @@ fn gen(rng: &mut Rng) -> String {
             (tag, cs)
         }
     };
+    // aliases of a character of the run: the same low 16 (or 8) bits on another plane (block), and the
+    // immediate neighbours of its block position -- what a truncating cast or an off-by-one range admits
+    if rng.chance(1, 8) && !cs.is_empty() {
+        let at = rng.below(cs.len() as u64) as usize;
+        let c = cs[at] as u32;
+        let alias = match rng.below(5) {
+            0 | 1 => (c & 0xFFFF) + 0x10000 * (1 + rng.below(16) as u32),
+            2 => (c & 0xFF) | (0x100 * (1 + rng.below(0x2FF) as u32)),
+            3 => c.wrapping_add(1 + rng.below(2) as u32),
+            _ => c.wrapping_sub(1 + rng.below(2) as u32),
+        };
+        if let Some(alias) = char::from_u32(alias) {
+            if rng.chance(1, 2) {
+                cs[at] = alias;
+            } else {
+                cs.insert(at, alias);
+            }
+        }
+    }
     // occasional cross-script noise
     if rng.chance(1, 10) && !cs.is_empty() {
         let at = rng.below(cs.len() as u64 + 1) as usize;
